@@ -107,7 +107,82 @@ func loadProgram(repo string, contractsMode string) (*Program, error) {
 	}
 	cs.Source = strings.TrimSpace(source)
 	prog.Contracts = cs
+	prog.rebindRenamedFuncs()
 	return prog, nil
+}
+
+// the signature of a function as recorded in the name index ("//@ sig <key>: <signature>"): receiver type and the types of
+// parameters and results, without names
+func sigString(fi *FuncInfo) string {
+	sig := fi.Obj.Type().(*types.Signature)
+	q := func(*types.Package) string { return "" }
+	var b strings.Builder
+	if sig.Recv() != nil {
+		b.WriteString("(" + strings.ReplaceAll(types.TypeString(sig.Recv().Type(), q), " ", "") + ")")
+	}
+	b.WriteString("(")
+	for i := 0; i < sig.Params().Len(); i++ {
+		if i > 0 {
+			b.WriteString(",")
+		}
+		b.WriteString(strings.ReplaceAll(types.TypeString(sig.Params().At(i).Type(), q), " ", ""))
+	}
+	if sig.Variadic() {
+		b.WriteString("...")
+	}
+	b.WriteString(")(")
+	for i := 0; i < sig.Results().Len(); i++ {
+		if i > 0 {
+			b.WriteString(",")
+		}
+		b.WriteString(strings.ReplaceAll(types.TypeString(sig.Results().At(i).Type(), q), " ", ""))
+	}
+	b.WriteString(")")
+	return b.String()
+}
+
+// A function under contract that no longer exists under its recorded name, while exactly one function that was NOT there
+// when the contracts were written has the recorded signature (same receiver, parameter and result types): the function was
+// renamed (only unexported ones can be, without changing the API), and its contract blocks are bound to the new name.
+func (p *Program) rebindRenamedFuncs() {
+	cs := p.Contracts
+	if len(cs.Sigs) == 0 {
+		return
+	}
+	seen := map[string]bool{}
+	for _, b := range cs.Order {
+		if seen[b.Key] || p.Funcs[b.Key] != nil {
+			continue
+		}
+		seen[b.Key] = true
+		want, ok := cs.Sigs[b.Key]
+		if !ok {
+			continue
+		}
+		prefix := ""
+		if i := strings.Index(b.Key, ":"); i >= 0 {
+			prefix = b.Key[:i+1]
+		}
+		var cands []*FuncInfo
+		for k, fi := range p.Funcs {
+			if _, recorded := cs.Sigs[k]; recorded || !strings.HasPrefix(k, prefix) || (prefix == "" && strings.Contains(k, ":")) {
+				continue
+			}
+			if ast.IsExported(fi.Obj.Name()) {
+				continue
+			}
+			if sigString(fi) == want {
+				cands = append(cands, fi)
+			}
+		}
+		if len(cands) == 1 {
+			fi := cands[0]
+			delete(p.Funcs, fi.Key)
+			p.Renamed = append(p.Renamed, fmt.Sprintf("%s is now called %s (same signature; not present when the contracts were written)", b.Key, fi.Key))
+			fi.Key = b.Key
+			p.Funcs[b.Key] = fi
+		}
+	}
 }
 
 func verifDir() string {
@@ -307,6 +382,9 @@ func (u *Unit) run(extra func(env *Env)) (err string) {
 	u.runGhostKind(env, blk, "ghostinit")
 	if blk.Opts["holds-callbacks"] != "" && u.litTarget == nil {
 		u.checkHoldsCallbacks(env)
+	}
+	if u.litTarget == nil {
+		u.checkGlobalInits(env, blk)
 	}
 	for k, v := range env.vars {
 		u.entry.vars[k] = v
@@ -762,5 +840,50 @@ func (u *Unit) checkHoldsCallbacks(env *Env) {
 			return true
 		})
 		u.assert(env, "holds-callbacks/"+p.Name(), "capture", u.FI.Decl.Pos(), "the function-typed parameter "+p.Name()+" is only stored, never called or passed on", boolTerm(okAll))
+	}
+}
+
+
+// "globalinit <Var>: <spec>": the initializer expression of the package variable <Var> (var X = e) is evaluated and <spec> is
+// proved of its value, with <Var> naming that value.  This is how a well-formedness fact that the functions of a block ASSUME
+// of a package-level value (e.g. None's flags) is tied to the declaration that is supposed to establish it.
+func (u *Unit) checkGlobalInits(env *Env, blk *Block) {
+	for _, cl := range blk.Of("globalinit") {
+		name := cl.Label
+		if name == "" {
+			unsup("%s:%d: globalinit needs '<Var>: <spec>'", cl.File, cl.Line)
+		}
+		var init ast.Expr
+		var pos token.Pos
+		for _, f := range u.Pkg.Syntax {
+			for _, d := range f.Decls {
+				gd, ok := d.(*ast.GenDecl)
+				if !ok || gd.Tok != token.VAR {
+					continue
+				}
+				for _, sp := range gd.Specs {
+					vs := sp.(*ast.ValueSpec)
+					for i, n := range vs.Names {
+						if n.Name == name && i < len(vs.Values) {
+							init, pos = vs.Values[i], vs.Pos()
+						}
+					}
+				}
+			}
+		}
+		if init == nil {
+			u.assert(env, "globalinit/"+name+"/declared", "post", u.FI.Decl.Pos(), "package variable "+name+" is declared with an initializer", False)
+			continue
+		}
+		sub := env.clone()
+		v := u.eval(init, sub)
+		sc := *u.ownCtx
+		sc.bound = map[string]Value{name: v}
+		c2 := cl
+		c2.Label = ""
+		for k, part := range u.splitClause(Clause{Kind: "globalinit", Label: "wf", Text: cl.Text, File: cl.File, Line: cl.Line}) {
+			t := u.specExprCtx(part, sub, &sc)
+			u.assert(sub, fmt.Sprintf("globalinit/%s/%s#%d", name, "holds", k), "post", pos, part.Text, t)
+		}
 	}
 }
